@@ -89,7 +89,7 @@ func HarnessC08Sign() {
 	e := svPick("embeds", svParam("embeds", 1)+1)
 	a := svPick("atts", svParam("atts", 1)+1)
 	menc := hxEnc(svPick("menc", 3))
-	variant := svPick("variant", svParam("variants", 9))
+	variant := svPick("variant", svParam("variants", 10))
 	n := svParam("n", 2)
 	m := NewMsg(WithEncoding(menc))
 	_ = m.From("a@b.c")
@@ -121,6 +121,9 @@ func HarnessC08Sign() {
 		m.CcIgnoreInvalid("not an address")
 	case 7:
 		vname = "after-WriteToSkipMiddleware"
+	case 9:
+		vname = "preformatted-tab-folded"
+		m.SetGenHeaderPreformatted(Header("X-Pre"), "line one\r\n\tline two\r\n\tline three")
 	case 8:
 		// a caller-chosen boundary is documented to work only for messages with a
 		// single multipart level (the signed wrapper does not count: it must still
